@@ -1059,6 +1059,9 @@ func RunPath(p *Program, solver *sym.Solver, fn *ssa.Function, prefix []int32, o
 			}
 		case pathEnd:
 			res.End, res.Msg = x.Kind, x.Msg
+			if x.Kind == "unsupported" && len(e.notes) > 0 && os.Getenv("GOSYM_NOTES") != "" {
+				res.Msg += " notes=" + strings.Join(e.notes, ";")
+			}
 		case goPanic:
 			// an interpreted panic escaping the harness: the harness decides via vNoPanic wrappers;
 			// an uncaught one is a candidate violation ("never panics").
